@@ -252,7 +252,6 @@ func VPH_pipelineRefs() {
 	vp_Reach("end")
 }
 
-
 // VPH_pipelineBatchFill: streams of several small objects whose cumulative
 // size (contents + the LF cat-file appends) lands exactly on, one below and
 // one above 4 KiB and 64 KiB - the places where a reader that manages its own
@@ -268,7 +267,7 @@ func VPH_pipelineBatchFill() {
 	target := []int{4096, 65536}[vp_Choice("boundary", 2)]
 	k := []int{2, 4, 5, 8}[vp_Choice("objects", 4)]
 	delta := vp_Choice("delta", 3) - 1 // the last object ends at boundary-1, boundary, boundary+1
-	each := target/k - 1                // k objects of (each+1) bytes fill the target when k divides it
+	each := target/k - 1               // k objects of (each+1) bytes fill the target when k divides it
 	var sizes []int
 	sum := 0
 	for i := 0; i < k-1; i++ {
